@@ -24,6 +24,8 @@ def main():
             continue
         patch = os.path.join(HERE, 'benign', d, 'patch.diff')
         for chk in CHECKS[d[0]]:
+            if os.environ.get('BENIGN_CHECKS') and chk not in os.environ['BENIGN_CHECKS'].split():
+                continue
             if subprocess.call(['git', '-C', REPO, 'apply', patch]) != 0:
                 out['%s/%s' % (d, chk)] = {'error': 'patch does not apply'}
                 break
@@ -38,7 +40,7 @@ def main():
             print(d, chk, 'exit', p.returncode, viol[:2], flush=True)
     path = os.path.join(HERE, 'benign', 'RESULTS.json')
     old = {}
-    if only and os.path.exists(path):
+    if (only or os.environ.get('BENIGN_CHECKS')) and os.path.exists(path):
         old = json.load(open(path))
     old.update(out)
     with open(path, 'w') as fh:
